@@ -14,8 +14,8 @@ Trace == ndJsonDeserialize("trace.ndjson")
 TraceT == Trace[1].cfg.T
 INSTANCE TreeInv WITH T <- TraceT
 
-VARIABLES l, dict, rid, typ, limit
-tvars == <<l, dict, rid, typ, limit>>
+VARIABLES l, dict, rid, typ, limit, committed, known, lcalls
+tvars == <<l, dict, rid, typ, limit, committed, known, lcalls>>
 
 Root(r) == r.roots[1]
 Forest(r) == r.roots[1].F[1]
@@ -26,7 +26,7 @@ ObsDict(r) == LET a == Root(r).abs  n == Len(a) \div 2 IN
 ObsPairs(r) == LET a == Root(r).abs IN {<<a[2 * i - 1].v, a[2 * i].v>> : i \in 1..(Len(a) \div 2)}
 ObsKeys(r) == LET a == Root(r).abs IN [i \in 1..(Len(a) \div 2) |-> a[2 * i - 1].v]
 
-Init == l = 1 /\ dict = <<>> /\ rid = 0 /\ typ = "" /\ limit = 255
+Init == l = 1 /\ dict = <<>> /\ rid = 0 /\ typ = "" /\ limit = 255 /\ committed = <<>> /\ known = FALSE /\ lcalls = 0
 
 ResOK(r, m) == /\ r.res.class = m.class
                /\ (CheckCat => r.res.cat = m.cat)
@@ -40,8 +40,20 @@ PopSeq(s) == IF s = <<>> THEN <<>> ELSE PopSeq(Tail(s)) \o <<Head(s).k, Head(s).
 Next ==
   /\ l <= Len(Trace) /\ l' = l + 1
   /\ LET r == Trace[l] IN
-     CASE r.ev = "Load" ->
+     /\ IF r.ev \in {"Load", "Commit"} THEN lcalls' = r.st.calls ELSE UNCHANGED lcalls
+     /\ IF r.ev \in {"Load", "Commit", "Crash"} THEN TRUE ELSE UNCHANGED <<committed, known>>
+     /\ CASE r.ev = "Load" ->
             /\ dict' = ObsDict(r) /\ rid' = Root(r).rid /\ typ' = Root(r).ti /\ limit' = r.i
+            /\ known' = r.known /\ committed' = (IF r.known THEN [i \in 1..(Len(r.cold[1].abs) \div 2) |-> [k |-> r.cold[1].abs[2 * i - 1].v, v |-> r.cold[1].abs[2 * i].v, d |-> r.cold[1].kds[i]]] ELSE <<>>)
+       [] r.ev = "Commit" ->
+            /\ UNCHANGED <<dict, rid, typ, limit>>
+            /\ IF r.res.class = "ok" THEN committed' = dict /\ known' = TRUE
+               ELSE committed' = committed /\ known' = FALSE
+       [] r.ev = "DropCache" -> UNCHANGED <<dict, rid, typ, limit>>
+       [] r.ev = "Crash" ->
+            /\ UNCHANGED <<rid, typ, limit, committed, known>>
+            /\ (StrictA /\ known => r.res.class = "ok")
+            /\ dict' = (IF StrictA /\ known THEN committed ELSE ObsDict(r))
        [] r.ev = "MSet" -> Step(r, MSet(dict, r.k.id, r.kd, r.e.id, limit)) /\ UNCHANGED <<rid, typ, limit>>
        [] r.ev = "MGet" -> Step(r, MGet(dict, r.k.id)) /\ UNCHANGED <<rid, typ, limit>>
        [] r.ev = "MHas" -> Step(r, MHas(dict, r.k.id)) /\ UNCHANGED <<rid, typ, limit>>
@@ -80,6 +92,21 @@ WellFormed == l > 1 => MapWellFormed(Forest(Cur))
 SizesAgree == l > 1 => MapSizesAgree(Forest(Cur))
 \* C09
 NoLeak == l > 1 => Cur.st.stored = Cur.st.reach
+
+ObsPairsOf(ro) == LET a == ro.abs IN {<<a[2 * i - 1].v, a[2 * i].v>> : i \in 1..(Len(a) \div 2)}
+NoLedgerWrite == l > 1 => Cur.st.calls = lcalls
+TempNeverWritten == l > 1 => \A i \in 1..Len(Cur.calls) : Cur.calls[i].owner # 0
+Durable == (l > 1 /\ Cur.ev = "Commit" /\ Cur.res.class = "ok") =>
+  /\ Len(Cur.cold) = 1 /\ Cur.cold[1].kind = "M"
+  /\ ObsPairsOf(Cur.cold[1]) = Pairs(dict) /\ ForestPairs(Cur.cold[1].F[1]) = Pairs(dict)
+  /\ Cur.cold[1].n = Len(dict) /\ Cur.cold[1].ti = typ /\ Cur.cold[1].rid = rid
+CrashRestores == (l > 1 /\ Cur.ev = "Crash" /\ known) => (Cur.res.class = "ok" /\ ObsPairs(Cur) = Pairs(committed))
+ColdEqualsWarm == (l > 1 /\ Cur.ev = "Commit" /\ Cur.res.class = "ok") => Cur.cold[1].F = Root(Cur).F
+ColdWellFormed == (l > 1 /\ Cur.ev = "Commit" /\ Cur.res.class = "ok") => MapWellFormed(Cur.cold[1].F[1])
+CallLess(a, b) == a.owner < b.owner \/ (a.owner = b.owner /\ a.index < b.index)
+DetOrder == (l > 1 /\ Cur.ev = "Commit" /\ Cur.mode = "det") =>
+  \A i \in 1..(Len(Cur.calls) - 1) : CallLess(Cur.calls[i], Cur.calls[i + 1])
+FailedCommitIsExternal == (l > 1 /\ Cur.ev = "Commit" /\ Cur.res.class # "ok") => Cur.res.cat = "external"
 
 TraceAccepted ==
   LET d == TLCGet("stats").diameter IN
